@@ -66,12 +66,20 @@ def startValue (p : PDA) (c : Char) : PDA :=
 /-- a character after a complete value -/
 def afterValue (p : PDA) (c : Char) : PDA :=
   if isWs c then { p with st := .after }
-  else match p.stack, c with
-    | .arr :: _, ',' => { p with st := .value }
-    | .obj :: _, ',' => { p with st := .key }
-    | .arr :: rest, ']' => { st := .after, stack := rest }
-    | .obj :: rest, '}' => { st := .after, stack := rest }
-    | _, _ => { p with st := .fail }
+  else if c == ',' then
+    (match p.stack with
+     | .arr :: _ => { p with st := .value }
+     | .obj :: _ => { p with st := .key }
+     | [] => { p with st := .fail })
+  else if c == ']' then
+    (match p.stack with
+     | .arr :: rest => { st := .after, stack := rest }
+     | _ => { p with st := .fail })
+  else if c == '}' then
+    (match p.stack with
+     | .obj :: rest => { st := .after, stack := rest }
+     | _ => { p with st := .fail })
+  else { p with st := .fail }
 
 def step (p : PDA) (c : Char) : PDA :=
   match p.st with
@@ -155,5 +163,13 @@ def accepting (p : PDA) : Bool :=
 def validChars (cs : List Char) : Bool := accepting (run {} cs)
 
 def valid (s : String) : Bool := validChars s.toList
+
+/-- a character that can stand inside a JSON string as it is -/
+def safeChar (c : Char) : Bool := c != '"' && c != '\\' && decide (c.toNat ≥ 0x20)
+
+def safeChars (cs : List Char) : Bool := cs.all safeChar
+
+/-- a character that cannot continue a number -/
+def isNumEnd (c : Char) : Bool := !(isDigit c || c == '.' || c == 'e' || c == 'E')
 
 end Burrow.Json
